@@ -11,7 +11,7 @@ CONN_NOTE = "Trusted: TLC; the harness (virtual-time loop, simulated link over t
 # id -> (level, technique, text, note, design_ref, engine)
 CLAIMED = {
  'C13': ('model_checking',
-         'TLC exhaustive check of StreamIds.tla + replay of every transition of its state graph on the real StreamControl; Dispatch.tla rows for request frames that reuse an active id replayed on both real endpoints',
+         'TLC exhaustive check of StreamIds.tla + replay of every transition of its state graph on the real StreamControl; Apalache symbolic check of the allocation step at the real 31-bit scale (StreamIdsScale.tla); Dispatch.tla rows for request frames that reuse an active id replayed on both real endpoints',
          'TLC explores every history of allocate/register/finish/incoming on id spaces 0..7 and 0..15 for both parities and checks the '
          'declarative clauses of C13 on the allocator algorithm; the complete state graph (24.7k states, 293k transitions) is then replayed '
          'transition by transition on the real StreamControl, plus walks at the real 31-bit scale through a window refinement. '
